@@ -146,6 +146,34 @@ def source_names():
     return out
 
 
+def simulate_cell(impl, m):
+    """All 2^n input assignments of a combinational cell through the REAL LogicSim (m = 2 or 8) on the cell's implementation
+    circuit as the library publishes it: sim[k][a] = value of output pin k (declaration order) under assignment a
+    (bit i of a = input pin i).  Empty on any exception (reported through SimulatedIsDatasheet as missing data)."""
+    import numpy as np
+    from kyupy import logic
+    from kyupy.logic_sim import LogicSim
+    try:
+        c = impl.copy()
+        ins = [i for i, n in enumerate(c.io_nodes) if len(n.ins) == 0]
+        outs = [i for i, n in enumerate(c.io_nodes) if len(n.ins) > 0]
+        if len(ins) > 8 or len(c.s_nodes) != len(c.io_nodes):
+            return None
+        P = 1 << len(ins)
+        mv = np.zeros((len(c.s_nodes), P), dtype=np.uint8)
+        for j, i in enumerate(ins):
+            mv[i] = [3 if (a >> j) & 1 else 0 for a in range(P)]
+        sim = LogicSim(c, sims=P, m=m)
+        sim.s[0] = logic.mv_to_bp(mv)
+        sim.s_to_c()
+        sim.c_prop()
+        sim.c_to_s()
+        res = logic.bp_to_mv(sim.s[1])[:, :P]
+        return [[{0: 0, 3: 1}.get(int(v) if m == 8 else (3 if int(v) & 1 else 0), 2) for v in res[i]] for i in outs]
+    except Exception as e:
+        return [['ERR ' + repr(e)[:80]]]
+
+
 def records():
     from .c10 import libs
     recs = []
@@ -165,6 +193,7 @@ def records():
                              fam=fam, groups=groups, roles=roles, outroles=outroles,
                              ein=ein if ein is not None else [], eout=eout if eout is not None else [],
                              hasein=ein is not None, haseout=eout is not None,
+                             sim2=(simulate_cell(impl, 2) or []) if fam != 'none' else [], sim8=(simulate_cell(impl, 8) or []) if fam != 'none' else [],
                              # carried by the first record of a library: every name of its source text, and whether it is defined
                              libnames=srcn.get(lname, []) if first else [], libdefined=[n in tlib.cells for n in srcn.get(lname, [])] if first else []))
             first = False
